@@ -20,3 +20,11 @@ Print Assumptions C16_value_roundtrip_lossless.
 Theorem C16_no_os_access : surface_safe surface = true.
 Proof. exact surface_is_safe. Qed.
 Print Assumptions C16_no_os_access.
+
+(* "survive the conversion unchanged in meaning", towards the controller: whenever Encode succeeds on a table -- ANY table a
+   script can build, not only decoded ones -- the array / object it writes has exactly as many elements / members as the
+   table has live entries; nothing is dropped, nothing is padded (applies at every nesting level: members are themselves
+   results of encode) *)
+Theorem C16_encoding_loses_no_entry : forall arr hash j, encode (LTab arr hash) = Some j -> jwidth j = live (LTab arr hash).
+Proof. exact encode_loses_no_entry. Qed.
+Print Assumptions C16_encoding_loses_no_entry.
